@@ -104,6 +104,17 @@ pub fn run(ctx: &mut Ctx) {
             i += step * ctx.nshards;
         }
     }
+    // magnitude family: long class-pure runs on byte / power-of-two boundaries (deterministic; every 2nd in quick)
+    {
+        let step = if ctx.is_thorough() { 1 } else { 2 };
+        let mut i = ctx.shard * step;
+        while i < inputs::magnitude_family_count() {
+            let input = inputs::magnitude_family_case(i);
+            let list = if i % 3 == 0 { "all" } else { "default" };
+            eval(ctx, &EncCase { input, list: list.into(), mask: 63, macros: false, fnc1: false, eci: None, order: 0, prelude: 0, skipdef: false, entry: 0 }, "magnitude_family");
+            i += step * ctx.nshards;
+        }
+    }
     let fam_step = 1;
     let mut i = ctx.shard * fam_step;
     while i < inputs::family_count() {
